@@ -326,3 +326,57 @@ pub fn gen_prefix(out: &mut dyn Write, which: &str, seed: u64, thorough: bool) {
         }
     }
 }
+
+/// C19: every call of `remove_hopeless_cases` during planning, recorded by the hook, against the
+/// Lean model of the pruning (`DM/Model/Prune.lean`)
+pub fn gen_prune(out: &mut dyn Write, seed: u64, thorough: bool) {
+    use datamatrix::verif_hooks as vh;
+    let mut rng = Rng::new(seed ^ 0x9C19);
+    let mut hist: BTreeMap<String, usize> = BTreeMap::new();
+    let fmt = |l: &Vec<vh::PlanRecord>, full: bool| -> String {
+        if l.is_empty() {
+            return "-".into();
+        }
+        l.iter()
+            .map(|p| {
+                if full {
+                    format!(
+                        "{}.{}.{}.{}",
+                        p.start,
+                        p.current,
+                        p.cost,
+                        p.switch_cost.iter().map(|c| c.map(|x| x.to_string()).unwrap_or("-".into())).collect::<Vec<_>>().join("/")
+                    )
+                } else {
+                    format!("{}.{}.{}", p.start, p.current, p.cost)
+                }
+            })
+            .collect::<Vec<_>>()
+            .join(";")
+    };
+    let mut calls = 0usize;
+    let mut maxlen = 0usize;
+    let n = if thorough { 6000 } else { 500 };
+    for k in 0..n {
+        let len = if k % 10 == 0 { 60 + rng.below(200) } else { rng.below(40) };
+        let d = gen_data(&mut rng, len, &mut hist);
+        let modes = gen_modes(&mut rng);
+        let mask = gen_mask(&mut rng, &mut hist);
+        vh::prune_log_enable(true);
+        let d2 = d.clone();
+        let _ = guarded(move || datamatrix::data::encodation_plan(&d2, &list_from_mask(if mask == 0 { default_mask() } else { mask }), modes_from_bits(modes)));
+        let log = vh::prune_log_take();
+        vh::prune_log_enable(false);
+        let mut it = log.into_iter();
+        while let (Some((false, sorted)), Some((true, fin))) = (it.next(), it.next()) {
+            calls += 1;
+            maxlen = maxlen.max(sorted.len());
+            // keep the case file small: every call for short inputs, every 7th for long ones
+            if len <= 40 || calls % 7 == 0 {
+                writeln!(out, "M prune {} => {}", fmt(&sorted, true), fmt(&fin, false)).unwrap();
+            }
+        }
+    }
+    writeln!(out, "# prune_calls_recorded {}", calls).unwrap();
+    writeln!(out, "# longest_candidate_list {}", maxlen).unwrap();
+}
